@@ -250,6 +250,8 @@ def run(prog, R):
         R.ob("C08.3-operands-wrapped", "operand unwrapped iff its type == promoted type, else Cast(operand, promoted); result type = promoted", not bad and n == 4, nw.at, f"{n} arithmetic paths; {bad[:3]}")
     R.premises(prog, "C08.4-premise", ["C20:C20."],
                "the common type of an arithmetic expression is promote_types(..) and the justification rule accepts `equal_up_to_constness(target, value)` and `can_cast_literal` as written: their decision tables must be the ones C20 checks")
+    R.premises(prog, "C08.1-literal-class-premise", ["C10:C10.4-"], "a literal has the type of its literal class: which constructor (plain / imaginary / timing) the translator uses for each literal form is C10.4's table")
+    R.premises(prog, "C08.2-identifier-premise", ["C07:C07.3-", "C07:C07.5-"], "an identifier has the type of its symbol: the initializer is typed before the declared name is bound, and one lookup yields symbol and type")
     import c08_table
     c08_table.check(prog, R)
     c08_table.check_assign(prog, R)
